@@ -287,3 +287,72 @@ func (bs *bookSet) renderPGN(r *Rng) string {
 	}
 	return sb.String()
 }
+
+// genContentionSet builds a collection aimed at the moment a position is first discovered by
+// several line goroutines at once: nPairs pairs of games which reach the same position through
+// different predecessor positions (A x B / B x A), partners adjacent and each written `copies`
+// times, all pairs of about the same length so that their goroutines meet.
+func genContentionSet(r *Rng, nPairs, copies int) *bookSet {
+	bs := &bookSet{}
+	start := rc.MustFEN(rc.StartFEN)
+	strip := func(b *rc.Board) string {
+		f := strings.Fields(b.FEN())
+		return strings.Join(f[:4], " ")
+	}
+	for tries := 0; len(bs.Games) < 2*nPairs*copies && tries < nPairs*200; tries++ {
+		var prefix []rc.Move
+		b := start
+		for _, st := range playout(r, start, 2*r.Intn(3), Bias{Capture: 1, Double: 2, Shuffle: 1}) {
+			prefix = append(prefix, st.Move)
+			b = st.After
+		}
+		legal := b.Legal()
+		if len(legal) < 2 {
+			continue
+		}
+		a, c := legal[r.Intn(len(legal))], legal[r.Intn(len(legal))]
+		if a == c || a.From == c.From || a.Kind == rc.Promotion || c.Kind == rc.Promotion {
+			continue
+		}
+		replies := b.Apply(a).Legal()
+		if len(replies) == 0 {
+			continue
+		}
+		x := replies[r.Intn(len(replies))]
+		if x.Kind == rc.Promotion {
+			continue
+		}
+		g1, ok1 := replayGame(start, append(append([]rc.Move{}, prefix...), a, x, c))
+		g2, ok2 := replayGame(start, append(append([]rc.Move{}, prefix...), c, x, a))
+		if !ok1 || !ok2 {
+			continue
+		}
+		e1, e2 := start, start
+		for _, m := range g1.Moves {
+			e1 = e1.Apply(m)
+		}
+		for _, m := range g2.Moves {
+			e2 = e2.Apply(m)
+		}
+		if strip(e1) != strip(e2) {
+			continue
+		}
+		// a short common tail
+		var tail []rc.Move
+		for _, st := range playout(r, e1, 1+r.Intn(2), Bias{Capture: 1, Shuffle: 1}) {
+			if st.Move.Kind == rc.Promotion {
+				break
+			}
+			tail = append(tail, st.Move)
+		}
+		g1, ok1 = replayGame(start, append(append([]rc.Move{}, g1.Moves...), tail...))
+		g2, ok2 = replayGame(start, append(append([]rc.Move{}, g2.Moves...), tail...))
+		if !ok1 || !ok2 {
+			continue
+		}
+		for k := 0; k < copies; k++ {
+			bs.Games = append(bs.Games, g1, g2)
+		}
+	}
+	return bs
+}
